@@ -39,7 +39,7 @@ Definition ser_scalar (s : scalar) (v : value) : option (list Z) :=
   | SSmallint, VInt z => pack_int 2 true z
   | STinyint, VInt z => pack_int 1 true z
   | SText, VText cps => utf8_encode cps
-  | STime, VInt n => if n <? DAY_NANOS then pack_int 8 true n else None
+  | STime, VInt n => if (0 <=? n) && (n <? DAY_NANOS) then pack_int 8 true n else None     (* util.Time: 0 <= t < one day *)
   | STimestamp, VInt ms => pack_int 8 true ms
   | SUuid, VBytes bs => if (length bs =? 16)%nat then Some bs else None
   | SVarint, VInt z => Some (varint_pack z)
@@ -65,7 +65,7 @@ Definition des_scalar (s : scalar) (bs : list Z) : option value :=
   | SSmallint => z <- unpack_int 2 true bs ;; Some (VInt z)
   | STinyint => z <- unpack_int 1 true bs ;; Some (VInt z)
   | SText => cps <- utf8_decode bs ;; Some (VText cps)
-  | STime => n <- unpack_int 8 true bs ;; if n <? DAY_NANOS then Some (VInt n) else None
+  | STime => n <- unpack_int 8 true bs ;; if (0 <=? n) && (n <? DAY_NANOS) then Some (VInt n) else None
   | STimestamp =>
     ms <- unpack_int 8 true bs ;;
     if (TS_MIN <=? ms) && (ms <=? TS_MAX) then Some (VInt ms) else None   (* OverflowError outside datetime's range *)
